@@ -22,8 +22,13 @@ class C17(Prop):
 
     def generate(self, rng, tier, idx):
         wts, bias = None, None
-        if rng.random() < 0.12:
+        r17 = rng.random()
+        if r17 < 0.12:
             wts, bias = {"ppa": 1}, "param"       # classes whose list of conditions depends on a parameter (D, M)
+        elif r17 < 0.24:
+            wts, bias = None, "rename"            # names given (again) between two solves
+        elif r17 < 0.30:
+            wts, bias = {"linear": 1}, "adjoint_sample"
         plan = gen_session(rng, tier, peer_mode="tagged", nsolves=rng.choice([1, 1, 2, 3] if wts is None else [2, 3]),
                            class_duals=True, decorations=[] if rng.random() < 0.5 else None, weights=wts,
                            edit_bias=bias, dup_names=False)
